@@ -22,7 +22,7 @@ BUDGET = {'quick': {'runs': 8000, 'cap_s': 30, 'wall_s': 100, 'chunk': 40},
 WEIGHTS = [('split_obs', 3), ('split_channel', 2), ('split_time', 2), ('subset_obs', 3), ('subset_channel', 2), ('subset_time', 2),
            ('sort_by', 4), ('merge', 4), ('odd_even_split', 2), ('nested_odd_even_split', 1.5), ('bin_time', 3),
            ('time_as_observations', 3), ('time_as_channels', 3), ('df_roundtrip', 2), ('copy_ds', 1.5), ('average_by', 2),
-           ('array_write_ds', 1), ('measurements_tensor', 1), ('redo_after_sort', 3), ('redo_after_relabel', 2)]
+           ('array_write_ds', 1), ('measurements_tensor', 1), ('redo_after_sort', 3), ('redo_after_relabel', 2), ('to_df_columns', 1.5)]
 INPLACE = [('sort_by', 3), ('array_write_ds', 1)]
 PRODUCERS = {'split_obs', 'split_channel', 'split_time', 'subset_obs', 'subset_channel', 'subset_time', 'merge', 'odd_even_split',
              'nested_odd_even_split', 'bin_time', 'time_as_observations', 'time_as_channels', 'df_roundtrip', 'copy_ds'}
